@@ -66,8 +66,42 @@ def config_args(rng, acc=None, mode=None):
     return args
 
 
+D2_FAMS = ["conv_chain", "conv_chain_big", "weights_heavy", "single", "diamond", "mixed_cpu", "lut_heavy", "weights_heavy"]
+D2_STRATA = [  # (accelerator, memory mode, system config) combinations that must always be present
+    ("ethos-u65-512", "Dedicated_Sram", "Ethos_U65_High_End"), ("ethos-u65-256", "Dedicated_Sram", "Ethos_U65_Mid_End"),
+    ("ethos-u65-512", "Shared_Sram", "Ethos_U65_Embedded"), ("ethos-u65-256", "Sram_Only", "Ethos_U65_High_End"),
+    ("ethos-u55-128", "Shared_Sram", "Ethos_U55_High_End_Embedded"), ("ethos-u55-256", "Sram_Only", "Ethos_U55_High_End_Embedded"),
+    ("ethos-u55-32", "Shared_Sram", "Ethos_U55_Deep_Embedded"), ("ethos-u55-64", "Sram_Only", "Ethos_U55_Deep_Embedded"),
+    ("ethos-u65-512", "default", None), ("ethos-u55-128", "default", None)]
+
+
+def plan_d2(n, seed, capture=True):
+    """the plan shared by every end-to-end (D2) check: a stratified core - every stratum of D2_STRATA with a
+    weights-heavy and a big convolution chain, both optimisation strategies - then random points"""
+    rng = random.Random("plan/d2/%s" % seed)
+    jobs = []
+    i = 0
+    for fam in ("weights_heavy", "conv_chain_big"):
+        for acc, mode, sysc in D2_STRATA:
+            args = ["--accelerator-config", acc]
+            if mode != "default":
+                args += ["--config", CONFIG_INI, "--system-config", sysc, "--memory-mode", mode]
+            args += ["--optimise", "Size" if i % 2 else "Performance"]
+            if mode == "Dedicated_Sram" and i % 3 == 0:
+                args += ["--arena-cache-size", "65536"]
+            jobs.append({"family": fam, "seed": "d2s-%s-%d" % (seed, i), "args": args, "capture": capture})
+            i += 1
+    while len(jobs) < n:
+        fam = D2_FAMS[len(jobs) % len(D2_FAMS)]
+        jobs.append({"family": fam, "seed": "d2-%s-%d" % (seed, len(jobs)), "args": config_args(rng), "capture": capture})
+    return jobs[:max(n, 20)]
+
+
 def plan(families, n, seed, tag="", capture=True, fixed_first=True):
-    """n jobs spread over the families; every accelerator and memory mode at least once when n allows"""
+    """n jobs spread over the families; every accelerator and memory mode at least once when n allows.
+    tag "d2" selects the shared stratified plan (families argument ignored)."""
+    if tag == "d2":
+        return plan_d2(n, seed, capture)
     rng = random.Random("plan/%s/%s" % (tag, seed))
     jobs = []
     accs = U55 + U65
@@ -86,6 +120,9 @@ def job_key(job):
 
 
 def run_one(job, timeout=600):
+    """one compilation (cached). A per-key lock file makes concurrent checks wait for each other instead of
+    reading half-written artefacts."""
+    import fcntl
     key = job_key(job)
     out = os.path.join(CACHE, key)
     rj = os.path.join(out, "result.json")
@@ -94,22 +131,39 @@ def run_one(job, timeout=600):
             return json.load(open(rj))
         except Exception:
             pass
-    if os.path.exists(out):
-        shutil.rmtree(out, ignore_errors=True)
-    os.makedirs(out, exist_ok=True)
-    j = dict(job, out_dir=out)
-    jf = os.path.join(out, "job.json")
-    json.dump(j, open(jf, "w"))
-    try:
-        p = subprocess.run([vlib.PY, WORKER, jf], env=vlib.py_env(), capture_output=True, text=True, timeout=timeout)
-        if os.path.exists(rj):
-            return json.load(open(rj))
-        res = {"job": j, "status": "crash", "exception": "worker died without result (rc=%s)" % p.returncode,
-               "traceback": (p.stderr or "")[-3000:], "stdout": (p.stdout or "")[-3000:], "files": []}
-    except subprocess.TimeoutExpired:
-        res = {"job": j, "status": "timeout", "exception": "no termination within %d s" % timeout, "files": []}
-    json.dump(res, open(rj, "w"))
-    return res
+    os.makedirs(CACHE, exist_ok=True)
+    with open(os.path.join(CACHE, key + ".lock"), "w") as lf:
+        fcntl.flock(lf, fcntl.LOCK_EX)
+        try:
+            if os.path.exists(rj):
+                try:
+                    return json.load(open(rj))
+                except Exception:
+                    pass
+            if os.path.exists(out):
+                shutil.rmtree(out, ignore_errors=True)
+            os.makedirs(out, exist_ok=True)
+            j = dict(job, out_dir=out)
+            jf = os.path.join(out, "job.json")
+            json.dump(j, open(jf, "w"))
+            try:
+                p = subprocess.run([vlib.PY, WORKER, jf], env=vlib.py_env(), capture_output=True, text=True, timeout=timeout)
+                if os.path.exists(rj):
+                    return json.load(open(rj))
+                res = {"job": j, "status": "crash", "exception": "worker died without result (rc=%s)" % p.returncode,
+                       "traceback": (p.stderr or "")[-3000:], "stdout": (p.stdout or "")[-3000:], "files": []}
+            except subprocess.TimeoutExpired:
+                res = {"job": j, "status": "timeout", "exception": "no termination within %d s" % timeout, "files": []}
+            tmp = rj + ".tmp"
+            json.dump(res, open(tmp, "w"))
+            os.replace(tmp, rj)
+            return res
+        finally:
+            fcntl.flock(lf, fcntl.LOCK_UN)
+            try:
+                os.unlink(os.path.join(CACHE, key + ".lock"))
+            except OSError:
+                pass
 
 
 def run_all(jobs, timeout=600, workers=None):
@@ -123,7 +177,7 @@ def prune_cache(max_entries=6000):
     """keep disk use bounded: drop entries of other repo states first, then oldest"""
     if not os.path.isdir(CACHE):
         return
-    ents = [os.path.join(CACHE, d) for d in os.listdir(CACHE)]
+    ents = [os.path.join(CACHE, d) for d in os.listdir(CACHE) if not d.endswith(".lock")]
     if len(ents) <= max_entries:
         return
     ents.sort(key=lambda p: os.path.getmtime(p))
